@@ -1886,3 +1886,70 @@ func ruleR1511(c *Ctx) {
 		c.Undecided("parser2#decode-sites", token.NoPos, "only %d decode sites with a named width found", n)
 	}
 }
+
+// ---------------------------------------------------------------------------
+// R15.12 comment skipping is opt-in
+//
+// Comment detection runs in front of operator detection: with comments
+// enabled, "//" and "/*" never reach the operator table. A parser for an
+// operator table that contains such a spelling (or "/" followed by a prefix
+// "*") therefore only works while comments are off, which is the documented
+// default. The constructor of the parser must not switch them on.
+
+func ruleR1512(c *Ctx) {
+	root := c.Pkg("")
+	if root == nil {
+		c.Undecided("package parser2", token.NoPos, "not found")
+		return
+	}
+	info := root.TypesInfo
+	n := 0
+	for _, f := range root.Syntax {
+		ast.Inspect(f, func(x ast.Node) bool {
+			cl, ok := x.(*ast.CompositeLit)
+			if !ok || !isNamed(info.TypeOf(cl), modPath, "Parser") {
+				return true
+			}
+			fd := c.EnclosingDecl(cl)
+			if fd == nil {
+				return true
+			}
+			n++
+			key := declName(root, fd) + "#comments-off-by-default"
+			on := false
+			for _, el := range cl.Elts {
+				if kv, ok := el.(*ast.KeyValueExpr); ok {
+					if kid, ok := kv.Key.(*ast.Ident); ok && kid.Name == "allowComments" {
+						if tv := info.Types[kv.Value]; tv.Value == nil || tv.Value.Kind() != constant.Bool || constant.BoolVal(tv.Value) {
+							on = true
+						}
+					}
+				}
+			}
+			// assignments in the constructor
+			ast.Inspect(fd.Body, func(y ast.Node) bool {
+				as, ok := y.(*ast.AssignStmt)
+				if !ok || len(as.Lhs) != len(as.Rhs) {
+					return true
+				}
+				for i, l := range as.Lhs {
+					if sel, ok := ast.Unparen(l).(*ast.SelectorExpr); ok && sel.Sel.Name == "allowComments" {
+						if tv := info.Types[as.Rhs[i]]; tv.Value == nil || tv.Value.Kind() != constant.Bool || constant.BoolVal(tv.Value) {
+							on = true
+						}
+					}
+				}
+				return true
+			})
+			if on {
+				c.Violation(key, cl.Pos(), "the parser is created with comment skipping switched on: comment detection runs in front of operator detection, so for an operator table with // (or / and a prefix *) a//b+c parses as a and the rest is dropped without an error, and malformed input like a+b// is accepted")
+			} else {
+				c.OK(key, cl.Pos(), "a new parser skips no comments until AllowComments is called")
+			}
+			return true
+		})
+	}
+	if n < 1 {
+		c.Undecided("parser2.NewParser", token.NoPos, "no literal of Parser found")
+	}
+}
